@@ -132,6 +132,15 @@ m("c05_pop_keeps_buffer", "C05", NAME, """                if let Some(len) = sel
                     self.buffer.truncate(len);
                     self.bindings.truncate(last_valid_pos + 2);
                 }""")
+m("c05_xmlns_rebind_allowed", "C05", NAME, """                    Some(PrefixDeclaration::Named(b"xmlns")) => {
+                        // error, `xmlns` prefix explicitly set
+                        return Err(NamespaceError::InvalidXmlnsPrefixBind(v.to_vec()));
+                    }
+""", "")
+m("c05_xml_uri_for_other_prefix_allowed", "C05", NAME, """                        if ns == RESERVED_NAMESPACE_XML.1 {
+                            // error, non-`xml` prefix set to xml uri
+                            return Err(NamespaceError::InvalidPrefixForXml(prefix.to_vec()));
+                        } else if ns == RESERVED_NAMESPACE_XMLNS.1 {""", """                        if ns == RESERVED_NAMESPACE_XMLNS.1 {""")
 # ---------------- C07
 DE = "src/de/mod.rs"
 m("c07_revert_doctype_fix", "C07", DE, """            while let Ok(PayloadEvent::DocType(_)) = self.lookahead {""", """            while let (true, Ok(PayloadEvent::DocType(_))) = (false, &self.lookahead) {""")
@@ -314,6 +323,32 @@ m("c18_eintr_refeeds", "C18", BR, """                    Ok(n) => n,
                     Err(e) => {
                         *position += read;
                         return Err(Error::Io(e.into()));""")
+
+# ---------------- behaviour-preserving edits: every check must stay SILENT on these
+m("neutral_elementparser_loop", "C02", "src/parser/element.rs", """        for i in memchr::memchr3_iter(b'>', b'\\'', b'"', bytes) {""", """        for i in (0..bytes.len()).filter(|&i| matches!(bytes[i], b'>' | b'\\'' | b'"')) {""")
+m("neutral_piparser_loop", "C18", "src/parser/pi.rs", """        for i in memchr::memchr_iter(b'>', bytes) {""", """        for i in (0..bytes.len()).filter(|&i| bytes[i] == b'>') {""")
+m("neutral_emit_end_reorder", "C04", ST, """        match self.opened_starts.pop() {
+            Some(start) => {
+                if self.config.check_end_names {""", """        let popped = self.opened_starts.pop();
+        match popped {
+            Some(start) => {
+                if self.config.check_end_names {""")
+m("neutral_ns_pop_explicit", "C05", NS, """    pub(super) fn pop(&mut self) {
+        if self.pending_pop {
+            self.ns_resolver.pop();
+            self.pending_pop = false;
+        }
+    }""", """    pub(super) fn pop(&mut self) {
+        let pending = std::mem::replace(&mut self.pending_pop, false);
+        if pending {
+            self.ns_resolver.pop();
+        }
+    }""")
+m("neutral_read_to_end_depth_u32", "C12", MOD, """        let mut depth = 0;
+        loop {
+            $clear""", """        let mut depth: u64 = 0;
+        loop {
+            $clear""")
 
 def sh(*a, **k):
     return subprocess.run(a, cwd=R, capture_output=True, text=True, **k)
